@@ -204,6 +204,12 @@ fn build_input(c: &C13Case) -> Input {
                     "coordinates_plus_2_32" => format!("{}\t{}\t{}\t1", ch, s as u64 + (1u64 << 32), e as u64 + (1u64 << 32)),
                     "end_plus_2_32" => format!("{}\t{}\t{}\t1", ch, s, e as u64 + (1u64 << 32)),
                     "start_20_digits" => format!("{}\t{}\t{}\t1", ch, "18446744073709551617", e),
+                    // malformed fields of more than 80 / 200 bytes made of two- and three-byte characters (both
+                    // alignments): whatever an error message does with the text must respect characters
+                    "long_non_ascii_start" => format!("{}\t{}\t{}\t1", ch, "\u{fc}".repeat(70), e),
+                    "long_non_ascii_start_shifted" => format!("{}\tx{}\t{}\t1", ch, "\u{fc}".repeat(70), e),
+                    "long_non_ascii_missing_end" => format!("{}\u{67d3}{}", ch, "\u{8272}".repeat(90)),
+                    "long_non_ascii_value" => format!("{}\t{}\t{}\ty{}", ch, s, e, "\u{e9}\u{4f53}".repeat(60)),
                     _ => unreachable!(),
                 };
                 raw.insert(i, line);
@@ -405,10 +411,14 @@ fn c13_viols(bed: bool) -> Vec<(Viol, bool)> {
         "coordinates_plus_2_32",
         "end_plus_2_32",
         "start_20_digits",
+        "long_non_ascii_start",
+        "long_non_ascii_start_shifted",
+        "long_non_ascii_missing_end",
     ];
     if !bed {
         hows.push("missing_value");
         hows.push("bad_value");
+        hows.push("long_non_ascii_value");
     }
     for how in hows {
         for ci in 0..3 {
@@ -587,7 +597,9 @@ impl Check for C13 {
         })
     }
     fn case_cap_s(&self) -> u64 {
-        15
+        // library write calls take milliseconds; the tool cases carry their own 60 s limit (the
+        // 130 000-value merge takes a few seconds on a busy machine)
+        90
     }
 }
 
